@@ -390,15 +390,16 @@ Proof.
       rewrite V9 in *. split; [exact VF|]. exists (inl sub :: more). rewrite <- app_assoc in *. cbn [app] in *.
       split; [reflexivity|]. split; [|exact SN].
       eapply co_elem; [rewrite NS, TS; exact E4|exact E5|rewrite NS; exact M6|exact SVs|exact CO]. }
-    destruct (sub_name =? name_short_name T) eqn:ISN.
-    + apply N.eqb_eq in ISN.
-      assert (SNF2 : true = true -> exists e, In (inl e) (content ++ [inl sub]) /\ e_name e = name_short_name T).
-      { intros _. exists sub. split; [apply in_or_app; right; left; reflexivity|congruence]. }
-      destruct (first_string sub).
-      * inv H as u9 s9 E9. injection E9 as _ <-. eapply (FIN true); [|exact SNF2|exact H]. cbn [p_version add_ident]. exact VS.
-      * eapply (FIN true); [exact VS|exact SNF2|exact H].
-    + eapply (FIN snf); [exact VS| |exact H].
-      intros S1. destruct (SNF S1) as (e & HIn & EN). exists e. split; [apply in_or_app; left; exact HIn|exact EN].
+    assert (KEEP : snf = true -> exists e, In (inl e) (content ++ [inl sub]) /\ e_name e = name_short_name T).
+    { intros S1. destruct (SNF S1) as (e & HIn & EN). exists e. split; [apply in_or_app; left; exact HIn|exact EN]. }
+    destruct (sub_name =? name_short_name T) eqn:ISN; cbn [andb] in H; [|eapply (FIN snf); [exact VS|exact KEEP|exact H]].
+    destruct (match content with [] => true | _ :: _ => false end); [|eapply (FIN snf); [exact VS|exact KEEP|exact H]].
+    apply N.eqb_eq in ISN.
+    assert (SNF2 : true = true -> exists e, In (inl e) (content ++ [inl sub]) /\ e_name e = name_short_name T).
+    { intros _. exists sub. split; [apply in_or_app; right; left; reflexivity|congruence]. }
+    destruct (first_string sub).
+    + inv H as u9 s9 E9. injection E9 as _ <-. eapply (FIN true); [|exact SNF2|exact H]. cbn [p_version add_ident]. exact VS.
+    + eapply (FIN true); [exact VS|exact SNF2|exact H].
   - inv H as nm s3 E3. apply lift_ret_inv in E3 as [_ ->]. destruct nm as [n|]; [|discriminate H].
     destruct (n =? name); [|discriminate H].
     inv H as g s4 E4. apply get_ret_inv in E4 as [-> ->].
@@ -466,7 +467,7 @@ Proof.
     { intros M. rewrite count_text_app. cbn. specialize (CT M). lia. }
     assert (SC' : forall c, In (inl c) (content ++ [inl sub]) -> single_valued T c).
     { intros c HIn. apply in_app_or in HIn as [HIn|[HIn|[]]]; [apply SC; exact HIn|]. injection HIn as <-. exact E8. }
-    destruct (sub_name =? name_short_name T); [|eapply IH; eassumption].
+    destruct ((sub_name =? name_short_name T) && match content with [] => true | _ :: _ => false end); [|eapply IH; eassumption].
     destruct (first_string sub); [|eapply IH; eassumption].
     inv H as u9 s9 E9. eapply IH; eassumption.
   - inv H as nm s3 E3. destruct nm as [n|]; [|discriminate H]. destruct (n =? name); [|discriminate H].
